@@ -40,8 +40,6 @@ Proof.
   rewrite (is_prefix_snoc b k q Hk) in H. discriminate.
 Qed.
 
-Definition region_filter (b : path) (i len : nat) (L : list rule) (d : diag) : bool :=
-  negb (in_region b i len (fst d) && named L (snd d)).
 
 Section RangeList.
   Variable L : list rule.
@@ -184,8 +182,6 @@ Section RangeBlock.
 End RangeBlock.
 
 (* ------------------------------------------------------------------ whole programs *)
-Definition set_kids (ks : list node) (n : node) : node :=
-  match n with Node w m fl pre lsub lprog _ => Node w m fl pre lsub lprog ks end.
 
 Lemma rg_clear_rules0 L : rg_clear L rules0.
 Proof. unfold rg_clear, rules0. cbn. auto. Qed.
